@@ -152,6 +152,13 @@ pub fn extras(rec: &mut Rec, lm: &Landmarks, rng: &mut Rng, thorough: bool) {
             let end = safe_epoch(|| start + span);
             m.series_new(start, end, step, i % 2 == 0);
             if let Some(s) = m.ts.clone() {
+                let s2 = s.clone();
+                let r = catch(move || format!("{s2}"));
+                let res = match r {
+                    Ok(t) => format!("{{\"v\":{}}}", jstr(&t)),
+                    Err(p) => jpanic(&p),
+                };
+                m.rec.ev("x_series_text", format!("\"res\":{}", res), true);
                 let r = catch(|| (s.len(), s.size_hint()));
                 if let Ok((l, (lo, hi))) = r {
                     m.rec.ev("x_len", format!("\"len\":{},\"lo\":{},\"hi\":{},\"res\":{{\"v\":1}}", l, lo, hi.unwrap_or(0)), true);
@@ -173,6 +180,107 @@ pub fn extras(rec: &mut Rec, lm: &Landmarks, rng: &mut Rng, thorough: bool) {
                     m.ts = back;
                 }
             }
+        }
+    }
+    // month and weekday names
+    {
+        use hifitime::MonthName;
+        use std::str::FromStr;
+        let mi = |m: MonthName| m as u8 + 1;
+        for b in 0..=255u8 {
+            rec.episode();
+            let r = catch(|| {
+                let m = MonthName::from(b);
+                let long = format!("{m}");
+                let short = format!("{m:x}");
+                let bl = MonthName::from_str(&long).map(mi).unwrap_or(0);
+                let bs = MonthName::from_str(&short).map(mi).unwrap_or(0);
+                let bu = MonthName::from_str(&long.to_uppercase()).map(mi).unwrap_or(0);
+                format!("\"b\":{},\"m\":{},\"long\":{},\"short\":{},\"back_long\":{},\"back_short\":{},\"back_upper\":{},\"res\":{{\"v\":1}}", b, mi(m), jstr(&long), jstr(&short), bl, bs, bu)
+            });
+            match r {
+                Ok(body) => rec.ev("x_month", body, true),
+                Err(p) => rec.ev("x_month", format!("\"b\":{},\"res\":{}", b, jpanic(&p)), true),
+            }
+        }
+        for w in 0..7u8 {
+            rec.episode();
+            let r = catch(|| {
+                let wd = Weekday::from(w);
+                let long = format!("{wd}");
+                let short = format!("{wd:x}");
+                let bl = Weekday::from_str(&long).map(|x| u8::from(x) as i32).unwrap_or(-1);
+                let bs = Weekday::from_str(&short).map(|x| u8::from(x) as i32).unwrap_or(-1);
+                format!("\"w\":{},\"long\":{},\"short\":{},\"back_long\":{},\"back_short\":{},\"res\":{{\"v\":1}}", w, jstr(&long), jstr(&short), bl, bs)
+            });
+            match r {
+                Ok(body) => rec.ev("x_wdname", body, true),
+                Err(p) => rec.ev("x_wdname", format!("\"w\":{},\"res\":{}", w, jpanic(&p)), true),
+            }
+        }
+    }
+    // Hash: the same count (and scale) built in two ways hashes alike
+    {
+        use std::collections::hash_map::DefaultHasher;
+        use std::hash::{Hash, Hasher};
+        let h = |x: &dyn Fn(&mut DefaultHasher)| {
+            let mut s = DefaultHasher::new();
+            x(&mut s);
+            s.finish()
+        };
+        for i in 0..(if thorough { 20_000 } else { 2_000 }) {
+            let (c, n) = g.any_raw(rng);
+            let a = catch(|| Duration::from_parts(c, n)).unwrap_or(Duration::ZERO);
+            // the same value by another route: through the total count, or a neighbour one nanosecond away
+            let b = if i % 4 == 3 { ns_dur(a.total_nanoseconds() + 1) } else {
+                let (ac, an) = a.to_parts();
+                catch(|| Duration::from_parts(ac.saturating_sub(1), an.saturating_add(NPC))).unwrap_or(a)
+            };
+            let ta = SCALES[i % 9];
+            let tb = if i % 5 == 0 { SCALES[(i + 1) % 9] } else { ta };
+            let (ea, eb) = (Epoch::from_duration(a, ta), Epoch::from_duration(b, tb));
+            let same_dur = h(&|s| a.hash(s)) == h(&|s| b.hash(s));
+            let same_epoch = h(&|s| ea.hash(s)) == h(&|s| eb.hash(s));
+            rec.episode();
+            rec.ev("x_hash", format!("\"a\":{},\"b\":{},\"ta\":{},\"tb\":{},\"same_dur\":{},\"same_epoch\":{},\"res\":{{\"v\":1}}", jdur(a), jdur(b), ts_idx(ta), ts_idx(tb), jbool(same_dur), jbool(same_epoch)), true);
+        }
+    }
+    // the leap second providers as iterators, next() and next_back() mixed
+    {
+        use hifitime::leap_seconds::{LatestLeapSeconds, LeapSecondsFile};
+        for i in 0..(if thorough { 400 } else { 60 }) {
+            let builtin = i % 2 == 0;
+            let ncalls = 1 + rng.below(60) as usize;
+            let calls: Vec<u8> = (0..ncalls).map(|_| if rng.chance(1, 2 + (i as u64 % 3)) { 1 } else { 0 }).collect();
+            // every call under its own catch: a panicking call is logged as -2 and ends the sequence
+            let idx_of = |t: f64, tab: &[f64]| tab.iter().position(|x| *x == t).map(|p| p as i64 + 1).unwrap_or(-1);
+            let mut out: Vec<i64> = Vec::new();
+            let tab: Vec<f64> = if builtin {
+                LatestLeapSeconds::default().map(|l| l.timestamp_tai_s).collect()
+            } else {
+                LeapSecondsFile::from_path(crate::p_epoch::LEAP_FILE).unwrap().map(|l| l.timestamp_tai_s).collect()
+            };
+            let mut pb = LatestLeapSeconds::default();
+            let mut pf = LeapSecondsFile::from_path(crate::p_epoch::LEAP_FILE).unwrap();
+            for c in &calls {
+                let r = catch(|| match (builtin, *c) {
+                    (true, 0) => pb.next(),
+                    (true, _) => pb.next_back(),
+                    (false, 0) => pf.next(),
+                    (false, _) => pf.next_back(),
+                });
+                match r {
+                    Ok(x) => out.push(x.map(|l| idx_of(l.timestamp_tai_s, &tab)).unwrap_or(0)),
+                    Err(_) => {
+                        out.push(-2);
+                        break;
+                    }
+                }
+            }
+            rec.episode();
+            let cs: Vec<String> = calls.iter().map(|c| c.to_string()).collect();
+            let os: Vec<String> = out.iter().map(|c| c.to_string()).collect();
+            rec.ev("x_leap_iter", format!("\"builtin\":{},\"calls\":[{}],\"len\":{},\"res\":{{\"v\":[{}]}}", jbool(builtin), cs.join(","), tab.len(), os.join(",")), true);
         }
     }
     let _ = (g.raw.len(), TimeSeries::inclusive(Epoch::from_tai_duration(Duration::ZERO), Epoch::from_tai_duration(Duration::ZERO), Duration::EPSILON));
